@@ -289,6 +289,24 @@ pub fn run(ctx: &Ctx, rep: &mut Report) {
                 };
                 variants.push(("three alleles at adjacent sites".into(), (0..n).map(mk).collect()));
             }
+            // one sample carries both alleles (an extra contig with the other allele): its column entry is N
+            for n_here in [4usize, 5, 10] {
+                let p = 4 * k;
+                let mk = |i: usize| {
+                    let mut s = anc.clone();
+                    if i % 2 == 1 {
+                        s[p] = comp(s[p]);
+                    }
+                    let mut recs = vec![s.clone()];
+                    if i == 0 {
+                        let mut w = anc[p - k..p + k + 1].to_vec();
+                        w[k] = comp(w[k]);
+                        recs.push(w);
+                    }
+                    recs
+                };
+                variants.push((format!("one of {n_here} samples carries both alleles"), (0..n_here).map(mk).collect()));
+            }
             // a sample lacking the region
             {
                 let p = 4 * k;
@@ -316,7 +334,7 @@ pub fn run(ctx: &Ctx, rep: &mut Report) {
                         Ok(o) => {
                             // `ska lo` may legitimately find nothing (exit 1 with "no entry node")
                             if o.code == 0 {
-                                if let Err(e) = well_formed(&o, n, m.parse().unwrap()) {
+                                if let Err(e) = well_formed(&o, samples.len(), m.parse().unwrap()) {
                                     rep.violate(format!("wf k={k} {what} m={m}"), format!("k={k} {what} -m {m}: {e}"), json!({"wf": what, "k": k, "m": m}));
                                 }
                             }
